@@ -17,12 +17,39 @@ def Mono : List Rat → Prop
   | a :: b :: t => a ≤ b ∧ Mono (b :: t)
   | _ => True
 
+theorem mono_map_add : ∀ (l : List Rat) (c : Rat), Mono l → Mono (l.map (· + c))
+  | [], _, _ => trivial
+  | [_], _, _ => trivial
+  | a :: b :: t, c, h => ⟨by have := h.1; simp only; linarith, mono_map_add (b :: t) c h.2⟩
+
 theorem cumdist_spec (lens : List Rat) (h : ∀ l ∈ lens, 0 ≤ l) :
     (cumdist lens).length = lens.length + 1 ∧ (cumdist lens).head? = some 0 ∧
     (cumdist lens).getLast? = some lens.sum ∧ Mono (cumdist lens) := by
-  sorry
+  induction lens with
+  | nil => simp [cumdist, Mono]
+  | cons l ls ih =>
+    obtain ⟨hlen, hhead, hlast, hmono⟩ := ih (fun x hx => h x (List.mem_cons_of_mem _ hx))
+    have hl : 0 ≤ l := h l List.mem_cons_self
+    refine ⟨by simp [cumdist, hlen], by simp [cumdist], ?_, ?_⟩
+    · simp [cumdist, List.getLast?_cons, List.getLast?_map, hlast, add_comm]
+    · have hm := mono_map_add _ l hmono
+      cases hc : cumdist ls with
+      | nil => rw [hc] at hlen; simp at hlen
+      | cons a t =>
+        rw [hc] at hhead hm
+        simp at hhead
+        subst hhead
+        simp only [cumdist, hc]
+        exact ⟨by linarith, hm⟩
 
 /-! ## the new arc-length positions -/
+
+theorem linspace_getElem (L : Rat) (n : Nat) (hn : 2 ≤ n) (i : Nat) (h : i < (linspace L n).length) :
+    (linspace L n)[i] = if i + 1 = n then L else (i : Rat) * (L / ((n - 1 : Nat) : Rat)) := by
+  simp [linspace, show ¬ n ≤ 1 by omega]
+
+theorem linspace_length (L : Rat) (n : Nat) : (linspace L n).length = n := by
+  unfold linspace; split <;> simp
 
 /-- **equal steps, from 0 to the branch length**: `linspace L n` has `n` entries, starts at 0, ends at `L`, and
 consecutive entries differ by exactly `L / (n - 1)` -/
@@ -30,20 +57,67 @@ theorem linspace_spec (L : Rat) (n : Nat) (hn : 2 ≤ n) :
     (linspace L n).length = n ∧ (linspace L n).head? = some 0 ∧ (linspace L n).getLast? = some L ∧
     ∀ i (h : i + 1 < (linspace L n).length),
       (linspace L n)[i + 1] - (linspace L n)[i]'(by omega) = L / ((n - 1 : Nat) : Rat) := by
-  sorry
+  have hlen := linspace_length L n
+  refine ⟨hlen, ?_, ?_, ?_⟩
+  · rw [List.head?_eq_getElem?, List.getElem?_eq_getElem (by omega), linspace_getElem L n hn]
+    simp [show ¬ (1 = n) by omega]
+  · rw [List.getLast?_eq_getElem?, List.getElem?_eq_getElem (by omega), linspace_getElem L n hn]
+    simp [hlen, show n - 1 + 1 = n by omega]
+  · intro i h
+    rw [linspace_getElem L n hn, linspace_getElem L n hn]
+    rw [hlen] at h
+    rw [if_neg (by omega : ¬ i + 1 = n)]
+    have hc : ((n - 1 : Nat) : Rat) = (n : Rat) - 1 := by
+      rw [Nat.cast_sub (by omega)]; simp
+    by_cases h2 : i + 1 + 1 = n
+    · rw [if_pos h2, hc]
+      have : (n : Rat) = (i : Rat) + 2 := by rw [← h2]; push_cast; ring
+      rw [this]
+      have : (i : Rat) + 2 - 1 ≠ 0 := by
+        have : (0 : Rat) ≤ (i : Rat) := Nat.cast_nonneg i
+        linarith
+      field_simp
+      ring
+    · rw [if_neg h2]; push_cast; ring
+
+theorem ceil_pos {q : Rat} (hq : 0 < q) : 1 ≤ q.ceil := by
+  have : (0 : Int) < q.ceil := Rat.lt_ceil_iff.mpr (by simpa using hq)
+  omega
+
+theorem ceil_toNat_cast {q : Rat} (hq : 0 < q) : ((q.ceil.toNat : Nat) : Rat) = ((q.ceil : Int) : Rat) := by
+  have h := ceil_pos hq
+  have h2 : ((q.ceil.toNat : Nat) : Int) = q.ceil := Int.toNat_of_nonneg (by omega)
+  have := congrArg (Int.cast (R := Rat)) h2
+  rwa [Int.cast_natCast] at this
 
 /-- **the number of nodes is ⌈L/d⌉ + 1 and the step is no longer than the spacing** -/
 theorem iso_step_le (L d : Rat) (hL : 0 < L) (hd : 0 < d) :
     2 ≤ isoCount L d ∧ L / ((isoCount L d - 1 : Nat) : Rat) ≤ d := by
-  sorry
+  have hq : 0 < L / d := div_pos hL hd
+  have h1 := ceil_pos hq
+  have hle : L / d ≤ ((L / d).ceil : Rat) := Rat.le_ceil
+  refine ⟨by unfold isoCount; omega, ?_⟩
+  have : isoCount L d - 1 = (L / d).ceil.toNat := by unfold isoCount; omega
+  rw [this, ceil_toNat_cast hq]
+  have hc : (0 : Rat) < ((L / d).ceil : Rat) := by exact_mod_cast (by omega : 0 < (L / d).ceil)
+  rw [div_le_iff₀ hc]
+  rw [div_le_iff₀ hd] at hle
+  linarith
 
 /-- with `adjust_last_gap` (the default) the positions are `linspace`; a zero-length branch gives the single
 position 0 -/
 theorem isoPositions_adjust (L d : Rat) (hL : 0 < L) (hd : 0 < d) :
     isoPositions L d true = linspace L (isoCount L d) := by
-  sorry
+  have := (iso_step_le L d hL hd).1
+  simp [isoPositions, show isoCount L d > 1 by omega]
 theorem isoPositions_zero (d : Rat) (hd : 0 < d) (adj : Bool) : isoPositions 0 d adj = [0] := by
-  sorry
+  have _ := hd
+  have h0 : (0 : Rat).ceil = 0 := by decide
+  simp [isoPositions, isoCount, arange, h0]
+
+theorem noadj_getElem (L d : Rat) (i : Nat) (h : i < (arange L d ++ [L]).length) :
+    (arange L d ++ [L])[i] = if i < (L / d).ceil.toNat then (i : Rat) * d else L := by
+  simp [arange, List.getElem_append]
 
 /-- without `adjust_last_gap`: multiples of `d` below `L`, then `L` itself — again ⌈L/d⌉ + 1 positions, every
 step at most `d` -/
@@ -52,9 +126,66 @@ theorem isoPositions_noadjust (L d : Rat) (hL : 0 < L) (hd : 0 < d) :
     pos.length = isoCount L d ∧ pos.getLast? = some L ∧
     (∀ i (h : i + 1 < pos.length), i + 2 < pos.length → pos[i + 1] - pos[i]'(by omega) = d) ∧
     (∀ i (h : i + 1 < pos.length), pos[i + 1] - pos[i]'(by omega) ≤ d ∧ 0 ≤ pos[i + 1] - pos[i]'(by omega)) := by
-  sorry
+  have hpos : isoPositions L d false = arange L d ++ [L] := by simp [isoPositions]
+  suffices H : ∀ pos : List Rat, pos = arange L d ++ [L] →
+      pos.length = isoCount L d ∧ pos.getLast? = some L ∧
+      (∀ i (h : i + 1 < pos.length), i + 2 < pos.length → pos[i + 1] - pos[i]'(by omega) = d) ∧
+      (∀ i (h : i + 1 < pos.length), pos[i + 1] - pos[i]'(by omega) ≤ d ∧ 0 ≤ pos[i + 1] - pos[i]'(by omega)) from
+    H _ hpos
+  intro pos hp
+  subst hp
+  have hq : 0 < L / d := div_pos hL hd
+  have h1 := ceil_pos hq
+  have hle : L / d ≤ ((L / d).ceil : Rat) := Rat.le_ceil
+  have hcast := ceil_toNat_cast hq
+  have hlen : (arange L d ++ [L]).length = (L / d).ceil.toNat + 1 := by simp [arange]
+  refine ⟨by simp [arange, isoCount], by simp, ?_, ?_⟩
+  · intro i h h2
+    rw [noadj_getElem, noadj_getElem]
+    rw [hlen] at h h2
+    rw [if_pos (by omega), if_pos (by omega)]
+    push_cast; ring
+  · intro i h
+    rw [noadj_getElem, noadj_getElem]
+    rw [hlen] at h
+    rw [if_pos (by omega : i < (L / d).ceil.toNat)]
+    by_cases h2 : i + 1 < (L / d).ceil.toNat
+    · rw [if_pos h2]; push_cast
+      constructor <;> linarith
+    · rw [if_neg h2]
+      have hi : i + 1 = (L / d).ceil.toNat := by omega
+      have hi' : ((i : Rat) + 1) = ((L / d).ceil : Rat) := by
+        rw [← hcast, ← hi]; push_cast; ring
+      have hlt : ((i : Int) : Rat) < L / d := Rat.lt_ceil_iff.mp (by omega)
+      have hlt' : (i : Rat) < L / d := by simpa using hlt
+      rw [div_le_iff₀ hd] at hle
+      rw [lt_div_iff₀ hd] at hlt'
+      rw [← hi'] at hle
+      constructor <;> linarith
 
 /-! ## interpolation -/
+
+theorem mono_le_last : ∀ (l : List Rat) (a : Rat), Mono (a :: l) → ∀ b ∈ a :: l, b ≤ l.getLastD a
+  | [], a, _, b, hb => by simp at hb; simp [hb]
+  | c :: t, a, h, b, hb => by
+    rw [List.getLastD_cons]
+    have ih := mono_le_last t c h.2
+    rcases List.mem_cons.mp hb with rfl | hb
+    · exact le_trans h.1 (ih c List.mem_cons_self)
+    · exact ih b hb
+
+theorem go_cons (x xa fa xb fb : Rat) (xr fr : List Rat) :
+    interp1.go x xa fa (xb :: xr) (fb :: fr) =
+      if x < xb then fa + (x - xa) * ((fb - fa) / (xb - xa)) else interp1.go x xb fb xr fr := rfl
+
+theorem go_last (X : Rat) : ∀ (xr fr : List Rat) (xa fa : Rat), xr.length = fr.length →
+    (∀ xb ∈ xr, xb ≤ X) → interp1.go X xa fa xr fr = fr.getLastD fa
+  | [], [], _, _, _, _ => rfl
+  | [], _ :: _, _, _, h, _ => by simp at h
+  | _ :: _, [], _, _, h, _ => by simp at h
+  | xb :: xr, fb :: fr, xa, fa, h, hx => by
+    rw [go_cons, if_neg (not_lt.mpr (hx xb List.mem_cons_self)), List.getLastD_cons]
+    exact go_last X xr fr xb fb (by simpa using h) (fun y hy => hx y (List.mem_cons_of_mem _ hy))
 
 /-- **the end points are kept**: at arc length 0 and at the full length the interpolation returns the first
 and the last original value (`xp` = `cumdist lens`; at the start this needs a first segment of positive length —
@@ -63,7 +194,55 @@ theorem interp_endpoints (xp fp : List Rat) (x0 f0 : Rat) (xr fr : List Rat) (hx
     (hl : xr.length = fr.length) (hm : Mono xp) :
     ((∀ x1, xr.head? = some x1 → x0 < x1) → interp1 xp fp x0 = f0) ∧
     interp1 xp fp (xp.getLastD x0) = fp.getLastD f0 := by
-  sorry
+  subst hxp hfp
+  constructor
+  · intro h
+    unfold interp1
+    simp only [lt_irrefl, if_false]
+    match xr, fr, hl, h with
+    | [], [], _, _ => rfl
+    | [], _ :: _, hl, _ => simp at hl
+    | _ :: _, [], hl, _ => simp at hl
+    | x1 :: xr, f1 :: fr, _, h =>
+      rw [go_cons, if_pos (h x1 rfl)]; simp
+  · have hle := mono_le_last xr x0 hm
+    rw [List.getLastD_cons, List.getLastD_cons]
+    unfold interp1
+    simp only
+    rw [if_neg (not_lt.mpr (hle x0 List.mem_cons_self))]
+    exact go_last _ xr fr x0 f0 hl (fun y hy => hle y (List.mem_cons_of_mem _ hy))
+
+theorem go_seg (x : Rat) : ∀ (xr : List Rat) (xa : Rat), Mono (xa :: xr) → xa ≤ x → x < xr.getLastD xa →
+    ∃ j, ∃ t : Rat, j + 1 < (xa :: xr).length ∧ 0 ≤ t ∧ t < 1 ∧
+      (xa :: xr).getD j 0 ≤ x ∧ x < (xa :: xr).getD (j + 1) 0 ∧
+      t = (x - (xa :: xr).getD j 0) / ((xa :: xr).getD (j + 1) 0 - (xa :: xr).getD j 0) ∧
+      ∀ (fa : Rat) (fr : List Rat), fr.length = xr.length →
+        interp1.go x xa fa xr fr = (1 - t) * (fa :: fr).getD j 0 + t * (fa :: fr).getD (j + 1) 0
+  | [], xa, _, h0, h1 => by simp at h1; exact absurd h1 (not_lt.mpr h0)
+  | xb :: xr, xa, hm, h0, h1 => by
+    by_cases hx : x < xb
+    · have hpos : 0 < xb - xa := by linarith
+      refine ⟨0, (x - xa) / (xb - xa), by simp, div_nonneg (by linarith) hpos.le,
+        by rw [div_lt_one hpos]; linarith, by simpa using h0, by simpa using hx, by simp, ?_⟩
+      intro fa fr hfr
+      match fr, hfr with
+      | [], hfr => simp at hfr
+      | fb :: fr, _ =>
+        rw [go_cons, if_pos hx]
+        simp only [List.getD_cons_zero, List.getD_cons_succ]
+        field_simp
+        ring
+    · rw [List.getLastD_cons] at h1
+      obtain ⟨j, t, hj, ht0, ht1, hxj, hxj1, ht, hgo⟩ := go_seg x xr xb hm.2 (not_lt.mp hx) h1
+      refine ⟨j + 1, t, by simpa using hj, ht0, ht1, by simpa using hxj, by simpa using hxj1,
+        by simpa using ht, ?_⟩
+      intro fa fr hfr
+      match fr, hfr with
+      | [], hfr => simp at hfr
+      | fb :: fr, hfr =>
+        rw [go_cons, if_neg hx]
+        simp only [List.getD_cons_succ]
+        exact hgo fb fr (by simpa using hfr)
 
 /-- **every new point lies on the original polyline, in order**: for `x` inside the range, the interpolated
 value is `(1 - t)·fp[j] + t·fp[j+1]` for the segment `j` with `xp[j] ≤ x < xp[j+1]` and `t = (x - xp[j]) /
@@ -74,23 +253,45 @@ theorem interp_on_segment (xp : List Rat) (hm : Mono xp) (x : Rat) (hx0 : xp.hea
       xp.getD j 0 ≤ x ∧ x < xp.getD (j + 1) 0 ∧ t = (x - xp.getD j 0) / (xp.getD (j + 1) 0 - xp.getD j 0) ∧
       ∀ fp : List Rat, fp.length = xp.length →
         interp1 xp fp x = (1 - t) * fp.getD j 0 + t * fp.getD (j + 1) 0 := by
-  sorry
+  match xp, hm, hx0, hx1 with
+  | [], _, hx0, hx1 => simp at hx0 hx1; exact absurd hx1 (not_lt.mpr hx0)
+  | x0 :: xr, hm, hx0, hx1 =>
+    simp only [List.head?_cons, Option.getD_some] at hx0
+    rw [List.getLastD_cons] at hx1
+    have hx1' : x < xr.getLastD x0 := by
+      cases xr with
+      | nil => simpa using hx1
+      | cons a t => simpa [List.getLastD_cons] using hx1
+    obtain ⟨j, t, hj, ht0, ht1, hxj, hxj1, ht, hgo⟩ := go_seg x xr x0 hm hx0 hx1'
+    refine ⟨j, t, hj, ht0, ht1, hxj, hxj1, ht, ?_⟩
+    intro fp hfp
+    match fp, hfp with
+    | [], hfp => simp at hfp
+    | f0 :: fr, hfp =>
+      unfold interp1
+      simp only
+      rw [if_neg (not_lt.mpr hx0)]
+      exact hgo f0 fr (by simpa using hfp)
 
 /-- a convex combination of two points is no farther from either than they are from each other: the
 chord between two samples on one segment is a sub-segment, so resampling never lengthens a straight piece -/
 theorem convex_between (a b t : Rat) (h0 : 0 ≤ t) (h1 : t ≤ 1) (hab : a ≤ b) :
     a ≤ (1 - t) * a + t * b ∧ (1 - t) * a + t * b ≤ b := by
-  sorry
+  constructor <;> nlinarith [mul_nonneg h0 (sub_nonneg.mpr hab), mul_nonneg (sub_nonneg.mpr h1) (sub_nonneg.mpr hab)]
 
 /-- the resamplers apply this interpolation column by column -/
 theorem isoResample_columns (lens : List Rat) (cols : List (List Rat)) (d : Rat) (adj : Bool) :
     isoResample lens cols d adj =
       cols.map (interp (isoPositions ((cumdist lens).getLastD 0) d adj) (cumdist lens)) := by
-  sorry
+  rfl
 theorem linearResample_columns (lens : List Rat) (cols : List (List Rat)) (n : Nat) :
     linearResample lens cols n = cols.map (interp (linspace ((cumdist lens).getLastD 0) n) (cumdist lens)) ∧
     ∀ c ∈ linearResample lens cols n, c.length = n := by
-  sorry
+  refine ⟨rfl, ?_⟩
+  intro c hc
+  simp only [linearResample, List.mem_map] at hc
+  obtain ⟨col, _, rfl⟩ := hc
+  simp [interp, linspace_length]
 
 /-! ## smoothing -/
 
@@ -99,7 +300,24 @@ at all: only `x`, `y`, `z` are assigned, and only at positions `1..n-2`) -/
 theorem smooth_endpoints_count (v : List Rat) (k : Nat) :
     (convSmooth v k).length = v.length ∧
     (convSmooth v k).head? = v.head? ∧ (convSmooth v k).getLast? = v.getLast? := by
-  sorry
+  have hlen : (convSmooth v k).length = v.length := by simp [convSmooth]
+  have hget : ∀ i (h : i < (convSmooth v k).length), i = 0 ∨ i + 1 = v.length →
+      (convSmooth v k)[i] = v[i]'(by omega) := by
+    intro i h hi
+    have hi' : i < v.length := by omega
+    simp [convSmooth, hi, List.getD_eq_getElem?_getD, hi']
+  refine ⟨hlen, ?_, ?_⟩
+  · cases v with
+    | nil => simp [convSmooth]
+    | cons a t =>
+      rw [List.head?_eq_getElem?, List.getElem?_eq_getElem (by rw [hlen]; simp), hget 0 _ (Or.inl rfl)]
+      simp
+  · cases v with
+    | nil => simp [convSmooth]
+    | cons a t =>
+      rw [List.getLast?_eq_getElem?, List.getLast?_eq_getElem?, hlen,
+        List.getElem?_eq_getElem (by rw [hlen]; simp), hget _ _ (Or.inr (by simp)),
+        List.getElem?_eq_getElem (by simp)]
 
 /-! ## re-assembly -/
 
@@ -111,7 +329,9 @@ theorem assemble_keeps_interior {α : Type} (first last : α) (mid : List α) :
     assembleBranch (first :: mid ++ [last]) false true = first :: mid ∧
     assembleBranch (first :: mid ++ [last]) true false = mid ++ [last] ∧
     assembleBranch (first :: mid ++ [last]) false false = first :: mid ++ [last] := by
-  sorry
+  have : (first :: (mid ++ [last])).dropLast = first :: mid := by
+    rw [← List.cons_append, List.dropLast_concat]
+  simp [assembleBranch, this]
 
 -- non-vacuity / concrete behaviour
 example : isoPositions 2 (2/5) true = [0, 2/5, 4/5, 6/5, 8/5, 2] := by decide +kernel
